@@ -291,6 +291,12 @@ class SymExec:
                 x = self.fresh('t', 'rat', v[1])[1]
                 return ('int', f"(if {x} < 0 then Rat.ceil {x} else Rat.floor {x})")
             return ('int', self.as_int(v))
+        if fn == 'operator.index':
+            # accepts every integer type and nothing else: the identity on the fragment's `int`
+            v = self.ev(args[0], env)
+            if v[0] not in ('int', 'bool'):
+                raise Unsupported('operator.index on a non-integer')
+            return ('int', self.as_int(v))
         if fn == 'bool':
             return ('bool', self.as_bool(self.ev(args[0], env)))
         if fn == 'float':
